@@ -396,13 +396,14 @@ def clear_suid(mode):
 
 # ============================================================================ scenarios
 DEST = '/sandbox/dest'
-OUTSIDE = {'/sandbox/out/sentinel': 'file', '/sandbox/out': 'dir', '/abs/sentinel': 'file', '/sandbox/dest2': 'dir'}
+OUTSIDE = {'/sandbox/out/sentinel': 'file', '/sandbox/out': 'dir', '/sandbox/out/sub': 'dir', '/sandbox/out/sub/sentinel2': 'file', '/abs/sentinel': 'file', '/sandbox/dest2': 'dir'}
 
 
 def setup_fs(ex, dest_state='absent', chown_permitted=True):
     fs = FsModel(ex, chown_permitted)
     fs.mkdirs('/sandbox')
     fs.put_file('/sandbox/out/sentinel', [('sent', 0, 8)])
+    fs.put_file('/sandbox/out/sub/sentinel2', [('sent3', 0, 8)])   # a real subdirectory inside the place a hostile link points to
     fs.put_file('/abs/sentinel', [('sent2', 0, 8)])
     if dest_state != 'absent':
         fs.mkdirs(DEST)
@@ -578,6 +579,8 @@ def make_contain(prog, stitched):
             if stitched:
                 old = [E('/', 'Dir', mode=0o755, sec=1), E('/a', 'Dir', mode=0o755, user=u, sec=2), E('/d', 'Dir', mode=0o755, sec=3),
                        E('/a/sub', 'Dir', mode=0o755, user=u, sec=5),
+                       E('/a/sub/sentinel2', 'File', size=6, cls=2, mode=mode, user=u, sec=6),
+                       E('/a/sub/y', 'File', size=4, cls=3, mode=0o644, sec=7),
                        E('/a/x', 'File', size=5, cls=1, mode=mode, user=u, sec=4)]
                 new = [E('/', 'Dir', mode=0o755, sec=1), E('/a', 'Symlink', target=tgt, user=u, sec=9)]
                 put_band(ex, st, 0, old)
